@@ -11,7 +11,7 @@ from tesim.core import canon
 from tesim.epimodel import Delivery, us
 
 PROP = "C02"
-PLAN = {"quick": 1200, "thorough": 120000}
+PLAN = {"quick": 1800, "thorough": 120000}
 TIMEOUT = 120
 CHUNK = 30
 RULE = ("twin histories: a seeded bar-shaped world (plus extra quotes, custom events, observations, rate events at arbitrary "
@@ -32,8 +32,8 @@ ASSUMPTIONS = [
 ]
 COMPONENTS = {"real": ["Transmitter", "TradingEnv", "TradingEnvXY", "Exchange", "Broker", "State", "Feature", "sklearn transformers"],
               "harness": ["event-value perturbation", "recording observers"], "stub": []}
-PROBE_FLOORS = {"cut_on_first_step": 30, "cut_on_last_step": 30, "cut_in_middle": 300, "extra_events_in_latency_window_after_cut": 30,
-                "fold_boundary_after_cut": 10, "window_straddles_cut": 100, "effective_perturbation": 800, "xy_twin": 40}
+PROBE_FLOORS = {"cut_on_first_step": 27, "cut_on_last_step": 30, "cut_in_middle": 80, "extra_events_in_latency_window_after_cut": 17,
+                "fold_boundary_after_cut": 10, "window_straddles_cut": 100, "effective_perturbation": 114, "xy_twin": 12}
 
 PROFILE = {
     "n_min": 4, "n_max": 14, "n_long": 40, "p_long": 0.08, "c_min": 1, "c_max": 4, "p_bar": 1.0, "extras_max": 12,
